@@ -54,6 +54,17 @@ def run_program(sg, hist, junk=0):
             y = d(x)
             y.backward(sg.ones_like(y.data))
             out.append(h(y.data, x.grad.data))
+        elif api == "large":
+            # sizes beyond any small-tensor fast path: every random-consuming API on >= 2^16 elements
+            d = nn.Dropout(0.3)
+            x = sg.Tensor((np.arange(257 * 300, dtype=np.float32).reshape(257, 300) % 7) - 3, requires_grad=True)
+            y = d(x)
+            y.backward(sg.ones_like(y.data))
+            w = sg.empty(300, 260)
+            nn.init.kaiming_normal_(w)
+            lin = nn.Linear(300, 280)
+            out.append(h(sg.rand(260, 300).data, sg.randn((300, 257)).data, sg.normal(0.0, 1.0, 70000).data, sg.randint(0, 1000, (70000,)).data,
+                         y.data, x.grad.data, w.data, lin.weight.data))
         elif api == "split":
             from synapgrad.nn.utils.data import split_dataset
             X = np.arange(20).reshape(10, 2)
